@@ -3,6 +3,7 @@ package main
 import (
 	"fmt"
 	"go/ast"
+	"go/token"
 	"strings"
 )
 
@@ -154,7 +155,28 @@ func extractSecure(p *pkgs, f *facts) {
 		}
 	}
 	detail["checkGuardIsConfigOnly"] = everyStart
-	f.lean = append(f.lean, fmt.Sprintf("def secureCheck : Secure.CheckParams := ⟨%s, 0, %s⟩", leanBool(whole), leanBool(everyStart)))
+	// nothing in the package writes to a SecureConfig's Checksum or Hash (an assignment, or &x.Checksum handed on): the
+	// checksum compared is the byte string the caller configured
+	asGiven := true
+	for _, file := range p.files {
+		ast.Inspect(file, func(n ast.Node) bool {
+			switch v := n.(type) {
+			case *ast.AssignStmt:
+				for _, l := range v.Lhs {
+					if ls := exprString(l); strings.HasSuffix(ls, ".Checksum") || strings.HasSuffix(ls, ".SecureConfig.Hash") || strings.HasSuffix(ls, ".SecureConfig") {
+						asGiven = false
+					}
+				}
+			case *ast.UnaryExpr:
+				if v.Op == token.AND && strings.HasSuffix(exprString(v.X), ".Checksum") {
+					asGiven = false
+				}
+			}
+			return true
+		})
+	}
+	detail["checksumAsGiven"] = asGiven
+	f.lean = append(f.lean, fmt.Sprintf("def secureCheck : Secure.CheckParams := ⟨%s, 0, %s, %s⟩", leanBool(whole), leanBool(everyStart), leanBool(asGiven)))
 	detail["checkHashesWholeFile"] = whole
 	f.lean = append(f.lean, fmt.Sprintf("def secure : Secure.Params := ⟨%s, %s, %s, %s, %s⟩",
 		leanBool(reattachGuard), leanBool(checkBeforeLaunch), leanBool(errReturns), leanBool(mismatchReturns), leanBool(checksCmdPath)))
